@@ -545,6 +545,61 @@ static void RemoveObject(const Type::Ptr& type, const ConfigObject::Ptr& obj)
 	if (!path.IsEmpty()) try { Utility::Remove(path); } catch (...) {}
 }
 
+
+// What a restart does with the package, without restarting: every live _api object is recorded (config attributes),
+// unregistered WITHOUT touching its file, then all object files of the stage are compiled with package "_api",
+// evaluated, committed and activated in one activation context (as the daemon's config load does), and the resulting
+// _api objects are compared with the record: load ok / objects that did not come back / objects that appeared /
+// objects whose config attributes differ.  Only as the LAST operation of a case.
+VOP(cw_restart)
+{
+	CaseBegin();
+	std::map<std::pair<std::string, std::string>, std::string> before, after;
+	auto snapshot = [](std::map<std::pair<std::string, std::string>, std::string>& m) {
+		for (const Type::Ptr& type : Type::GetAllTypes()) {
+			auto *ct = dynamic_cast<ConfigType *>(type.get());
+			if (!ct) continue;
+			for (const ConfigObject::Ptr& obj : ct->GetObjects()) {
+				if (obj->GetPackage() != "_api") continue;
+				Dictionary::Ptr d = Serialize(obj, FAConfig);
+				m[{type->GetName().GetData(), obj->GetName().GetData()}] = JsonEncode(d).GetData();
+			}
+		}
+	};
+	snapshot(before);
+	for (int rank = 0; rank < 4; rank++)
+		for (const Type::Ptr& type : Type::GetAllTypes()) {
+			auto *ct = dynamic_cast<ConfigType *>(type.get());
+			if (!ct || TypeRank(type->GetName().GetData()) != rank) continue;
+			for (const ConfigObject::Ptr& obj : ct->GetObjects()) {
+				if (obj->GetPackage() != "_api") continue;
+				try { obj->Deactivate(true); } catch (...) {}
+				ConfigItem::Ptr item = ConfigItem::GetByTypeAndName(type, obj->GetName());
+				if (item) item->Unregister(); else obj->Unregister();
+			}
+		}
+	ConfigItem::m_UnnamedItems.clear();
+	std::vector<std::string> files;
+	for (auto& p : ObjectFiles()) if (!l_BaseFiles.count(p)) files.push_back(p);
+	bool ok = false;
+	try {
+		ok = ConfigItem::RunWithActivationContext(new Function("<cw_restart>", [files]() {
+			for (auto& f : files) {
+				std::unique_ptr<Expression> expr = ConfigCompiler::CompileFile(f, String(), "_api");
+				expr->Evaluate(*ScriptFrame::GetCurrentFrame());
+			}
+		}));
+	} catch (const std::exception&) { ok = false; }
+	DrainThreadPool();
+	snapshot(after);
+	size_t missing = 0, extra = 0, changed = 0;
+	for (auto& kv : before) { auto it = after.find(kv.first); if (it == after.end()) missing++; else if (it->second != kv.second) changed++; }
+	for (auto& kv : after) if (!before.count(kv.first)) extra++;
+	std::ostringstream o;
+	o << "cw_restart res=" << (ok ? "ok" : "fail") << " missing=" << missing << " extra=" << extra << " changed=" << changed << " nfiles=" << files.size();
+	Out(o.str());
+}
+
 static struct CwCaseEnd {
 	CwCaseEnd() {
 		RegisterCaseEnd([]() {
